@@ -20,6 +20,7 @@ type GenOpts struct {
 	NoIncr        bool
 	NoRev         bool
 	InvalidKeyPct int
+	Variants      string // restart ops carry this variants mode
 }
 
 const keyChars = "abcdefghijklmnopqrstuvwxyzABCDEFGHIJKLMNOPQRSTUVWXYZ0123456789_-/:.!#$%&*+,;<=>[]^{|}~"
@@ -151,7 +152,7 @@ func GenHistory(r *ref.Rand, keys []string, o GenOpts) []Op {
 				ops = append(ops, Op{K: "hints"})
 			case m < 85 && o.Restart:
 				rm := []string{"", "", "all", "hash", "s", "m", "rand:" + strconv.FormatUint(r.Uint64()%1000000, 10), "rand:" + strconv.FormatUint(r.Uint64()%1000000, 10)}[r.Intn(8)]
-				ops = append(ops, Op{K: "restart", Rm: rm})
+				ops = append(ops, Op{K: "restart", Rm: rm, Variants: o.Variants})
 			case o.GC:
 				ops = append(ops, Op{K: "gc", Sel: r.Uint64() % 1000000, Merge: r.Bool()})
 			default:
